@@ -22,6 +22,8 @@ pub enum WordCase {
     Part4 { ty: UTy, shift: u8, data: Vec<u128> },
     Part2 { ty: UTy, shift: u8, data: Vec<u128> },
     Remap(Vec<u8>),
+    /// stable_partition_of_4 (or _of_2) over `n` pseudo-random elements (long slices)
+    PartBig { four: bool, ty: UTy, shift: u8, n: u32, seed: u64 },
 }
 
 pub struct C17;
@@ -100,8 +102,20 @@ macro_rules! partition_check {
 impl Prop for C17 {
     type Case = WordCase;
     fn id(&self) -> &'static str { "C17" }
-    fn fixed_cases(&self, _tier: Tier) -> Vec<WordCase> {
-        (0..=255u8).map(WordCase::Table).collect()
+    fn fixed_cases(&self, tier: Tier) -> Vec<WordCase> {
+        let mut v: Vec<WordCase> = (0..=255u8).map(WordCase::Table).collect();
+        // long slices around 2^17 and 2^20 elements (2^22 in the thorough tier)
+        let mut sizes: Vec<u32> = vec![(1 << 17) - 1, 1 << 17, (1 << 17) + 1, (1 << 20) - 1, 1 << 20, (1 << 20) + 3];
+        if tier == Tier::Thorough {
+            sizes.extend([(1 << 22) + 1, 3_000_000]);
+        }
+        for (j, &n) in sizes.iter().enumerate() {
+            let ty = [UTy::U8, UTy::U64, UTy::U16, UTy::U128, UTy::U32, UTy::Usize][j % 6];
+            let shift = [0u8, 2, 4, 6, 3, 1][j % 6];
+            v.push(WordCase::PartBig { four: true, ty, shift, n, seed: j as u64 });
+            v.push(WordCase::PartBig { four: false, ty, shift, n, seed: 100 + j as u64 });
+        }
+        v
     }
     fn strategy(&self, _tier: Tier, _b: &str) -> BoxedStrategy<WordCase> {
         let data = |max: usize| {
@@ -127,6 +141,7 @@ impl Prop for C17 {
             2 => data(300).prop_map(|(ty, shift, data)| WordCase::Part4 { ty, shift, data }),
             2 => data(300).prop_map(|(ty, shift, data)| WordCase::Part2 { ty, shift, data }),
             1 => data(2000).prop_map(|(ty, shift, data)| WordCase::Part4 { ty, shift, data }),
+            1 => (any::<bool>(), uty(), any::<u8>(), prop_oneof![400 => 0u32..3000, 1 => 3000u32..300_000], any::<u64>()).prop_map(|(four, ty, sh, n, seed)| WordCase::PartBig { four, ty, shift: (sh as u32 % bits_of(ty)) as u8, n, seed }),
             1 => prop_oneof![proptest::collection::vec(any::<u8>(), 0..400), proptest::collection::vec(0u8..6, 0..50), proptest::collection::vec(prop_oneof![Just(0u8), Just(255u8), Just(7u8)], 0..20)].prop_map(WordCase::Remap),
         ]
         .boxed()
@@ -218,6 +233,14 @@ impl Prop for C17 {
                     UTy::U128 => partition_check!(u128, data, *shift, four, ctx),
                 };
                 ctx.nontrivial = buckets >= 2 && *shift > 0;
+            }
+            WordCase::PartBig { four, ty, shift, n, seed } => {
+                let mut r = Rng::new(*seed);
+                // a few distinct values around the shift, so that all buckets are long
+                let data: Vec<u128> = (0..*n).map(|_| { let x = r.next_u64() as u128; ((x & 0xF) << (*shift as u32).saturating_sub(1).min(120)) | (x >> 40 & 1) }).collect();
+                if *n >= 100_000 { ctx.label("partition-long-slice"); }
+                let inner = if *four { WordCase::Part4 { ty: *ty, shift: *shift, data } } else { WordCase::Part2 { ty: *ty, shift: *shift, data } };
+                return self.run(&inner, ctx);
             }
             WordCase::Remap(input) => {
                 ctx.label("text_remap");
